@@ -961,7 +961,7 @@ def mux(ctx):
     ctx.need(len(st) == 1 and not st[0].guard and st[0].rhs.op == 'sig', C + ': stall driven from the per-handler stalled flags')
     flag = st[0].rhs.args[0].name
     fd = ir.drivers(flag, exact=True)
-    latch = sorted(fd[0].rhs.sigs() - {H + 'stall'}) if len(fd) == 1 else []
+    latch = sorted(fd[0].rhs.sigs() - {H + 'stall', 'self.start'}) if len(fd) == 1 else []
     ctx.need(len(latch) == 1, C + ': stalled flag = handler.stall | latch')
     bad = None
     sets = [a for a in ir.drivers(latch[0], exact=True)]
@@ -977,11 +977,15 @@ def mux(ctx):
                     ev2 = Ev(ir, dict(env2, **{'self.stall': stall}))
                     nxt = step_regs(ev2, ir).get(latch[0], lt)
                     want = 1 if (hs and not stall) else 0 if (start or stall) else lt
-                    if (fl != (hs | lt) or nxt != want) and bad is None:
+                    # the latch is cleared only at the END of a start cycle: a stall remembered from the previous request
+                    # must not count in the start cycle of the next one (it would meet the combinational stall of the
+                    # other handler there and stall a request for a descriptor that exists)
+                    if (fl != (hs | (lt and not start)) or nxt != want) and bad is None:
                         bad = {'handler.stall': hs, 'latch': lt, 'start': start, 'mux.stall': stall, 'flag': fl, 'next latch': nxt}
     ctx.ob('C09.mux-stall', C + '.stall-latch', bad is None and len(sets) == 2, sets[0].loc if sets else None,
            'a handler counts as stalled from its stall pulse (remembered in a latch; the set wins over the clear on start) until the '
-           'multiplexer itself stalls or the next start: %s' % (bad,))
+           'multiplexer itself stalls or the next start -- and a latch left over from the previous request does not count in the '
+           'start cycle itself: %s' % (bad,))
     # .all() is folded away by the extractor for a single symbolic handler: read the reduction off the source
     _, fn = ctx.func(C, 'elaborate')
     red = [n.args[0] for n in ast.walk(fn) if isinstance(n, ast.Call) and isinstance(n.func, ast.Attribute) and n.func.attr == 'eq' and n.args and
